@@ -46,7 +46,7 @@ func (c *checkCtx) writeRegoReplay(o regosym.Outcome) string {
 	if strings.HasSuffix(o.Label, ".profile-compiles") {
 		kind = "rego-compile"
 	}
-	if kind == "rego-verdict" && (strings.HasPrefix(o.Label, "C12.") || strings.HasPrefix(o.Label, "C14.location") || strings.HasPrefix(o.Label, "C13.") || strings.HasPrefix(o.Label, "C03.")) {
+	if _, isShape := o.Replay["obligations"]; kind == "rego-verdict" && isShape {
 		kind = "rego-shape"
 	}
 	if strings.HasPrefix(o.Label, "C02.") {
@@ -89,6 +89,9 @@ func (c *checkCtx) absorb(outs []regosym.Outcome, knownLabel string) {
 		case "violation":
 			c.disagreements++
 			c.replayed++
+			if o.Label == "C01.verdict-eq-reference" && c.spec.ID != "C01" && knownLabel != "" {
+				o.Label = knownLabel // the same verdict comparison, run for another property's family
+			}
 			dir := c.writeRegoReplay(o)
 			c.violations = append(c.violations, fmt.Sprintf("VIOLATION property=%s replay=%s label=%s program=%q signature=%s", c.spec.ID, dir, o.Label, o.Program, o.Signature))
 		case "compile-error", "generate-error":
@@ -158,6 +161,7 @@ func regoC01(c *checkCtx) {
 	var progs []regosym.Program
 	progs = append(progs, regosym.FamilyAtoms(thorough)...)
 	progs = append(progs, regosym.FamilyQuantified(thorough)...)
+	progs = append(progs, regosym.FamilyGrouped(thorough)...)
 	progs = append(progs, regosym.FamilyNestedAtoms(thorough)...)
 	progs = append(progs, regosym.FamilyAtomPaths(thorough)...)
 	if thorough {
@@ -297,6 +301,7 @@ func shapeFamily(thorough bool) []regosym.Program {
 		}
 	}
 	progs = append(progs, regosym.FamilyQuantified(thorough)...)
+	progs = append(progs, regosym.FamilyGrouped(thorough)...)
 	progs = append(progs, regosym.FamilyLevels()...)
 	return progs
 }
@@ -371,13 +376,17 @@ func regoC03(c *checkCtx) {
 // regoC13: placeholder substitution at evaluation time.
 func regoC13(c *checkCtx) {
 	msgs := []string{"m {{ex.p0}} end", "{{ex.p0}}", "say \"{{ex.p0}}\" 100% sure", "a\\b {{ ex.p0 }} c",
-		"{{ex.p0}} and {{ex.p0}}", "{{ ex.p0 }}-{{ex.p0}}", "{{ex.p0}}/{{ ex.p1 }}/{{ex.p0}}"}
+		"{{ex.p0}} and {{ex.p0}}", "{{ ex.p0 }}-{{ex.p0}}", "{{ex.p0}}/{{ ex.p1 }}/{{ex.p0}}",
+		// texts that read like keys of the profile language or of YAML
+		"targetClass", "propertyConstraints", "message", "it's: a #comment? - no", "{{ex.p1}}"}
 	var progs []regosym.Program
 	// profile and validation names are data as well: plain ones and ones with quotes, backslashes,
 	// percent signs, braces and letters outside ASCII
 	pnames := []string{"P", `Team "blue" API rules`, `a\b 100% {x} it's`, "Validación é 漢", "Ünïcödé-1"}
 	vnames := []string{"v", `operaciones-mínimas`, `check "q" 100%`, `a\b{c}`, "v"}
 	for k, m := range msgs {
+		m = regosym.FixPreds(m)
+		msgs[k] = m
 		p := regosym.Program{Name: pnames[k%len(pnames)], Validations: []regosym.Validation{{Name: vnames[k%len(vnames)], Level: "violation", Class: 0, Message: m,
 			F: regosym.And{Fs: []regosym.Formula{regosym.Atom{Path: regosym.P(1), Kind: "minCount", N: 1}}}}}}
 		progs = append(progs, p)
@@ -403,6 +412,7 @@ func regoC07(c *checkCtx) {
 	var progs []regosym.Program
 	progs = append(progs, regosym.FamilyAtoms(thorough)...)
 	progs = append(progs, regosym.FamilyQuantified(thorough)...)
+	progs = append(progs, regosym.FamilyGrouped(thorough)...)
 	progs = append(progs, regosym.FamilyNestedAtoms(thorough)...)
 	progs = append(progs, regosym.FamilyAtomPaths(thorough)...)
 	progs = append(progs, regosym.FamilySkeletons(2)...)
@@ -413,11 +423,18 @@ func regoC07(c *checkCtx) {
 		}
 	}
 	for _, m := range []string{"m {{ex.p0}} end", "{{ex.p0}} and {{ex.p0}}", "{{ ex.p0 }}-{{ex.p0}}", "{{ex.p0}}/{{ ex.p1 }}/{{ex.p0}}", "{{ex.p-0}} {{ex.p_0}}"} {
+		m = regosym.FixPreds(m)
 		progs = append(progs, regosym.Program{Name: "P", Validations: []regosym.Validation{
 			{Name: "v", Level: "violation", Class: 0, Message: m, F: regosym.And{Fs: []regosym.Formula{regosym.Atom{Path: regosym.P(1), Kind: "minCount", N: 1}}}},
 			{Name: "w", Level: "warning", Class: 0, Message: m, F: regosym.Nested{Path: regosym.P(0), F: regosym.And{Fs: []regosym.Formula{regosym.Atom{Path: regosym.P(1), Kind: "minCount", N: 1}}}}}}})
 	}
-	c.evidence["bounds_regosym"] = map[string]any{"programs": len(progs), "families": "atoms, quantified, nested atoms, atom paths, skeletons of depth 2, variable indices up to 26, rewrite base profiles, messages with repeated / several placeholders"}
+	// names are data: the translator derives identifiers of the policy from them
+	for k, n := range []string{`Team "blue" API rules`, `a\b 100% {x} it's`, "Guía de diseño de APIs", "Prüfregeln", "API 設計ガイド v2", "٣ rules", "x", "0", "-", "package", "default"} {
+		vn := []string{"v", "operaciones-mínimas", `check "q" 100%`, "not", "v-1"}[k%5]
+		progs = append(progs, regosym.Program{Name: n, Validations: []regosym.Validation{
+			{Name: vn, Level: "violation", Class: 0, F: regosym.And{Fs: []regosym.Formula{regosym.Atom{Path: regosym.P(1), Kind: "minCount", N: 1}}}}}})
+	}
+	c.evidence["bounds_regosym"] = map[string]any{"programs": len(progs), "families": "profile and validation names with quotes, backslashes, percent signs, braces, letters and digits outside ASCII, keywords; atoms, quantified, nested atoms, atom paths, skeletons of depth 2, variable indices up to 26, rewrite base profiles, messages with repeated / several placeholders; every program with a path sequence also with the sequence written over several lines"}
 	drv, err := regosym.BuildDriver(repoDir, verifDir(), regoWork(c))
 	if err != nil {
 		c.inconclusive("regosym: " + err.Error())
@@ -427,6 +444,18 @@ func regoC07(c *checkCtx) {
 	for _, p := range progs {
 		texts = append(texts, p.ProfileYAML())
 	}
+	// the same programs with their path sequences written over several lines (line breaks and tabs
+	// are whitespace of the path grammar)
+	descs := make([]string, len(progs))
+	for i, p := range progs {
+		descs[i] = regosym.DescribeProgram(p)
+	}
+	for i, t := range append([]string{}, texts...) {
+		if strings.Contains(t, " / ") {
+			texts = append(texts, strings.ReplaceAll(t, " / ", " /\\n\\t"))
+			descs = append(descs, descs[i]+" [paths written over several lines]")
+		}
+	}
 	gens, err := drv.Generate(texts)
 	if err != nil {
 		c.inconclusive("regosym: " + err.Error())
@@ -434,7 +463,7 @@ func regoC07(c *checkCtx) {
 	}
 	var outs []regosym.Outcome
 	for i, g := range gens {
-		o := regosym.Outcome{Program: regosym.DescribeProgram(progs[i]), Profile: texts[i], Status: "held"}
+		o := regosym.Outcome{Program: descs[i], Profile: texts[i], Status: "held"}
 		if g.Error != "" {
 			o.Status, o.Detail = "generate-error", g.Error
 		} else if msg := gosym.RegoCompileError(g.Code); msg != "" {
